@@ -3,8 +3,9 @@ none of the data's business.
 
   O   python -O (chosen by the runner on the command line): assert statements and __debug__ blocks compiled away
   K   the harness calls the library the other way round - arguments that the workloads pass by position are passed by keyword
-      (parent.add_child(child, index=3), validate.tree(node=..., errs=...)) and the other way - and logging is configured at DEBUG
-      level with a handler that formats every record (code guarded by isEnabledFor(DEBUG) runs, lazily formatted records are rendered)
+      (parent.add_child(child, index=3), validate.tree(node=..., errs=...)) and the other way - logging is configured at DEBUG
+      level with a handler that formats every record (code guarded by isEnabledFor(DEBUG) runs, lazily formatted records are rendered),
+      and warnings are errors (as under `python -W error` / pytest's filterwarnings=error) from the moment the library is imported
 
 Nothing here touches the tree under test: the wrappers sit on the attributes through which the harness reaches the library and act
 only on calls that come from harness modules (vlib.*); calls the library makes internally pass through untouched.
@@ -46,6 +47,7 @@ BASELINE = {
     "metapype_io.to_json": (["node", "indent"], 1), "metapype_io.to_xml": (["node", "parent", "level", "skip_ns"], 1),
     "normalize.normalize": (["content", "is_xml"], 1), "Node.__init__": (["self", "name", "id", "parent", "content"], 2),
     "Node.add_child": (["self", "child", "index"], 2), "Node.delete_node_instance": (["cls", "id", "children"], 2),
+    "Node.get_node_instance": (["cls", "id"], 2),
     "Node.replace_child": (["self", "old_child", "new_child", "delete_old"], 3), "Node.shift": (["self", "child", "direction", "sib"], 3),
 }
 
@@ -60,13 +62,21 @@ def _wrap(fn, skip, key=None):
         return None
     if any(p.kind == p.POSITIONAL_ONLY for p in params):
         return None
+    own_names = [p.name for p in params if p.kind == p.POSITIONAL_OR_KEYWORD]
+    takes_kwargs = any(p.kind == p.VAR_KEYWORD for p in params)
+    pinned = None
     if any(p.kind == p.VAR_POSITIONAL for p in params):
-        if key not in BASELINE or not any(p.kind == p.VAR_KEYWORD for p in params):
+        if key not in BASELINE or not takes_kwargs:
             return None
         names, skip = BASELINE[key]
         counts["functions_wrapped_by_the_pinned_names"] = counts.get("functions_wrapped_by_the_pinned_names", 0) + 1
     else:
-        names = [p.name for p in params]
+        names = own_names
+        if key in BASELINE and takes_kwargs and BASELINE[key][0] != own_names and len(BASELINE[key][0]) == len(own_names):
+            # a parameter was renamed and the function takes **kwargs (the usual way to keep the old keyword working): callers that
+            # still use the documented keyword are served too - tried first, the function's own names if it refuses the keyword
+            pinned = BASELINE[key][0]
+            counts["functions_wrapped_by_the_pinned_names"] = counts.get("functions_wrapped_by_the_pinned_names", 0) + 1
 
     @functools.wraps(fn)
     def wrapper(*args, **kwargs):
@@ -75,6 +85,14 @@ def _wrap(fn, skip, key=None):
             counts["calls_seen"] += 1
             if n <= len(names) and _rng.random() < 0.5:
                 keep = _rng.randint(skip, n - 1)
+                if pinned is not None:
+                    moved = dict(zip(pinned[keep:n], args[keep:]))
+                    if not (set(moved) & set(kwargs)):
+                        try:
+                            return fn(*args[:keep], **moved, **kwargs)
+                        except TypeError as e:
+                            if "unexpected keyword argument" not in str(e):
+                                raise
                 moved = dict(zip(names[keep:n], args[keep:]))
                 if not (set(moved) & set(kwargs)):
                     counts["calls_turned_into_keyword_form"] += 1
@@ -136,6 +154,13 @@ def install():
                 if w is not None:
                     setattr(cls, m, w)
                     counts["functions_wrapped"] += 1
+    # warnings are errors from here on (the library is imported by now - its import itself warns on current interpreters): a warning the
+    # library issues, or earns from the interpreter, in the middle of an operation ends that operation
+    import warnings
+    warnings.simplefilter("error")
+    # (the one warning the pinned code itself earns from the interpreter, every time the rule table is loaded: the legacy
+    # importlib.resources API - not this harness's business)
+    warnings.filterwarnings("ignore", message=r"(read_text|open_text|read_binary|open_binary|path|is_resource|contents) is deprecated", category=DeprecationWarning)
     # the loggers of the package itself, should it have set levels of its own
     for name in list(logging.root.manager.loggerDict):
         if name.startswith("metapype"):
